@@ -6,7 +6,7 @@ of `Y[kk]["ref"]` is the label `((2·kk)·1000 + row)·100000 + col`, of `Y[kk][
 `((2·kk + 1)·1000 + row)·100000 + col`) and the recorded `svd` / `sqrt` / `pinv` / `qr` / `inv` results as exact rationals.
 
 `{"op":"ssi_multi_setup","Y":[{"ref":[rows, cols],"mov":[rows, cols]},…],"br","ordmax","step",
-  "U":[mat per pass],"sq":[[…] per pass],"P":[mat per pass],"Q":mat,"R":mat,"Rinv":[mat per order pass]}`
+  "U":[mat per pass],"sq":[[…] per pass],"P":[mat per pass],"Q":mat,"R":mat,"Rshape":[rows, cols],"Rinv":[mat per order pass]}`
 → `{"raises": msg}` or `{"head","hank":[{"Y_all","Y_ref"}],"pinvargs","Obs_all","qrarg","invargs","A","C"}`.
 -/
 open Lean PV PV.Codec PV.MsGather PV.MultiSetup
@@ -40,7 +40,10 @@ def ssiMultiSetupOp (j : Json) : Except String Json := do
   let sq ← listOf (listOf ratOfJson) (← field j "sq")
   let P ← listOf matOfJson (← field j "P")
   let Q ← matOfJson (← field j "Q")
-  let R ← matOfJson (← field j "R")
+  let R0 ← matOfJson (← field j "R")
+  -- a recorded factor without entries (`O_p` without rows) travels as `[]`: its shape is restored from "Rshape"
+  let rs ← shapeOfJson (fieldD j "Rshape" (toJson [R0.r, R0.c]))
+  let R : Mat Rat := ⟨rs.1, rs.2, R0.e⟩
   let Rinv ← listOf matOfJson (← field j "Rinv")
   let rc : MsRec Rat := { U := fun k => U.getD k emptyMat, sq := fun k => sq.getD k [], P := fun k => P.getD k emptyMat,
                           Q := Q, R := R, Rinv := fun k => Rinv.getD k emptyMat }
